@@ -139,6 +139,6 @@ func init() {
 func init() {
 	addMutants(
 		Mutant{"C03", "c03-dict-sort-ties", "vng/primitive.go", "sortDict",
-			"return bytes.Compare(entries[i].Value.Bytes(), entries[j].Value.Bytes()) < 0", "return false", "C03-D1", "sortDict less function"},
+			"return bytes.Compare(entries[i].Value.Bytes(), entries[j].Value.Bytes()) < 0", "return bytes.Compare(nil, nil) < 0 && i < 0", "C03-D1", "sortDict less function"},
 	)
 }
